@@ -643,7 +643,77 @@ def c20(sc, tier, seed):
                     level='fault_enumeration')
 
 
-CHECKS = {'C01': c01, 'C20': c20, 'C19': c19, 'C13': c13, 'C02': c02, 'C18': c18, 'C15': c15, 'C08': c08, 'C14': c14, 'C10': c10, 'C09': c09, 'C07': c07, 'C06': c06, 'C03': c03, 'C04': c04, 'C05': c05}
+def c17(sc, tier, seed):
+    """SCAN family: TLC-generated histories executed on real collections; recorded histories judged by TLC (Trace_Scan)."""
+    v = Verdict('C17', tier, seed)
+    exe = build_harness(sc)
+    num = 24 if tier == 'quick' else 400
+    cfg = open(os.path.join(SPEC, 'MC_scan.cfg')).read()
+    out, st = run_tlc(sc, 'MC_scan', cfg, workers=1, timeout=900, extra=['-simulate', 'num=%d' % num, '-depth', '3000', '-seed', str(seed)])
+    if st['rc'] != 0:
+        raise Inconclusive('TLC simulation of MC_scan failed:\n' + '\n'.join(st['tail'][-20:]))
+    progs = [op['scanprog'] for op in tlc_json_lines(out) if 'scanprog' in op]
+    if not progs:
+        raise Inconclusive('MC_scan produced no history')
+    v.cov['tlc_runs'].append({'model': 'MC_scan (simulation)', 'histories': len(progs), 'wall_s': st['wall_s']})
+    variants = [('set', '', ''), ('hash', '', ''), ('keys', '', ''), ('set', 'e1*', ''), ('hash', '*5', ''), ('keys', 'e2*', ''), ('keys', '', 'string'), ('set', 'e77', '')]
+    cases = []
+    for i, p in enumerate(progs):
+        kind, pat, ty = variants[i % len(variants)]
+        cases.append({'id': i, 'prog': p, 'kind': kind, 'match': pat, 'type': ty, 'n': 120})
+    cf, rf = sc.path('scan-cases.jsonl'), sc.path('scan-out.jsonl')
+    with open(cf, 'w') as f:
+        for c in cases:
+            f.write(json.dumps(c, separators=(',', ':')) + '\n')
+    port = int(os.environ.get('VERIF_PORT', 21000)) + 2000
+    p = subprocess.run([exe, 'scan', '-cases', cf, '-out', rf, '-workers', '8', '-port', str(port)], stdout=subprocess.PIPE, stderr=subprocess.PIPE, text=True)
+    if p.returncode != 0:
+        raise Inconclusive('scan engine failed: ' + p.stderr[-2000:])
+    results = sorted((json.loads(l) for l in open(rf)), key=lambda r: r['id'])
+    hist = []
+    for r in results:
+        c = cases[r['id']]
+        v.cov['evaluations'] += 1
+        if r['status'] == 'ok':
+            hist.append((c, r))
+        elif r['status'] in ('viol', 'crash'):
+            v.record_violation({'kind': c['kind'], 'match': c['match'], 'prog': c['prog']}, {'fail': {'status': r['status'], 'cmd': '%s history %d' % (c['kind'], c['id']), 'detail': (r.get('detail') or '')[:500]}}, engine='scan')
+        else:
+            v.inconclusive.append('scan case %d: %s' % (r['id'], r.get('detail')))
+    if hist:
+        d = sc.path('tlc-scanjudge')
+        shutil.copytree(SPEC, d)
+        with open(os.path.join(d, 'scanhist.ndjson'), 'w') as f:
+            for c, r in hist:
+                f.write(json.dumps({'ev': r['ev']}, separators=(',', ':')) + '\n')
+        out2, st2 = run_tlc(sc, 'Trace_Scan', open(os.path.join(SPEC, 'Trace_Scan.cfg')).read(), workers=1, timeout=900, tag='scanjudge')
+        txt = re.sub(r'\s+', ' ', open(out2, errors='replace').read())
+        m = re.search(r'<< ?"SCANVERDICTS", "(.*?)" ?>>', txt)
+        if not m:
+            raise Inconclusive('Trace_Scan printed no verdicts:\n' + txt[-1500:])
+        verdicts = json.loads(json.loads('"' + m.group(1) + '"'))
+        if len(verdicts) != len(hist):
+            raise Inconclusive('Trace_Scan judged %d of %d histories' % (len(verdicts), len(hist)))
+        v.add_tlc('Trace_Scan', st2)
+        its = 0
+        for (c, r), vd in zip(hist, verdicts):
+            v.cov['traces_validated_against_impl'] += 1
+            its += vd['iterations']
+            if not vd['ok']:
+                v.record_violation({'kind': c['kind'], 'match': c['match'], 'prog': c['prog'], 'history': r['ev']},
+                                   {'fail': {'status': 'viol', 'cmd': '%s history %d (MATCH %r)' % (c['kind'], c['id'], c['match']),
+                                             'detail': 'a full iteration violates Always <= Returned <= Ever: ' + json.dumps(vd['bad'])[:400]}}, engine='trace_scan')
+        v.cov['distinct_nontrivial'] = its
+        v.cov['engines']['scan'] = {'histories': len(hist), 'full_iterations_judged': its, 'scan_calls': sum(r.get('calls', 0) for _, r in hist)}
+        c0, r0 = hist[0]
+        v.cov['samples'].append({'kind': c0['kind'], 'first_events': r0['ev'][:6]})
+    v.assumptions = ['element names are e1..e120 (the table passes through several doublings and halvings: growth is forced by the first hash collision at 16 buckets); hash bit patterns are not steered',
+                     'MATCH patterns are a prefix, a suffix and an exact name; TYPE string on an all-string keyspace',
+                     'termination: an iteration in progress when the history ends must finish within 4n+256 further calls on the then stable collection']
+    return v.finish(rule='TLC simulation of ScanHist yields histories of 260 operations (bursts of additions, bursts of removals, SCAN calls with COUNT in {1,2,3,10,1000} continuing the current iteration) over 120 elements; each is executed on a real set (SSCAN), hash (HSCAN) or keyspace (SCAN), with and without MATCH / TYPE; the recorded history (cursor in, cursor out, elements per call) is judged by TLC (Trace_Scan): for every completed full iteration Always <= Returned <= Ever restricted to the filter; plus termination on the stable collection. Non-trivial = completed full iterations judged.')
+
+
+CHECKS = {'C01': c01, 'C17': c17, 'C20': c20, 'C19': c19, 'C13': c13, 'C02': c02, 'C18': c18, 'C15': c15, 'C08': c08, 'C14': c14, 'C10': c10, 'C09': c09, 'C07': c07, 'C06': c06, 'C03': c03, 'C04': c04, 'C05': c05}
 
 
 def replay_path(path):
